@@ -122,6 +122,14 @@ func Concrete(x int) int { return x }
 
 func MapOrderNondet(on bool) {}
 
+// MapRangeCount: number of ranges over maps with at least two entries started so far
+// (symbolic executor only; natively 0).
+func MapRangeCount() int { return 0 }
+
+// ReverseMapRange(k): under the symbolic executor the k-th following range over a map with
+// at least two entries iterates in reverse insertion order. Natively map order is random.
+func ReverseMapRange(k int) {}
+
 // Guard declares that the state cell *ptr may only be accessed while lock is held
 // (mode 0: reads need RLock or Lock, writes need Lock; mode 1: everything needs Lock).
 func Guard(ptr any, lock any, mode int, name string) {}
